@@ -40,6 +40,10 @@ CLAIMS = {
          "trace validation of fill/copy variants + TLC reference stream for the built-in generator"),
  "C11": ("exploration", "the specification supplies the histories (over-capacity queues and plans, over-long replays, copies) and decides that rejected operations leave the state as specified; AddressSanitizer/UBSan, the assertion hook (HFSM2_VERIF) and an allocation counter observe the replays", "4 C11",
          "sanitizer / assertion-hook / allocation-counter observers on specification-driven conformance replays"),
+ "C12": ("model_checking", "action property P_Prescribed on models with utilitarian/random regions nested in composite and orthogonal regions: the operational report/resolve walk equals the declarative rule (leftmost arg-max; head utility x would-be sub-state; orthogonal mean; top rank only; cumulative interval containing r*sum) for utility/rank/generator-output patterns incl. ties, zeros and interval boundaries; on the code the same fixtures are instantiated with an exact rational utility type so that equality with the specification is the oracle, and the number of generator draws is compared per call", "4 C12",
+         "TLC action property + trace validation with exact rational utilities"),
+ "C15": ("exploration", "the same command lists on executors built under a matrix of feature sets, both header flavours and two compilers/standards; every trace is validated against the one specification (feature-dependent reports blanked per build) and the behaviours of all builds of a fixture are compared with each other", "4 C15",
+         "trace validation of every build variant against one specification + cross-build comparison"),
  "C16": ("model_checking", "structure()[i].isActive = isActive(i) monitor and functional equality of activityHistory with the saturating-counter rule after every call", "4 C16",
          "trace validation (monitor + functional)"),
 }
